@@ -275,6 +275,9 @@ class T:
             if args[0].args[3] == "Some":
                 return T.agg("adt", "result::Result", 0, "Ok", [args[0].args[4][0]])
             return T.agg("adt", "result::Result", 1, "Err", [args[1]])
+        if fkey in ("option::Option::unwrap", "option::Option::expect", "result::Result::unwrap", "result::Result::expect") and args \
+                and args[0].op == "agg" and args[0].args[3] in ("Some", "Ok") and args[0].args[4]:
+            return args[0].args[4][0]       # unwrap of a value that is visibly Some / Ok
         return Term("call", fkey, tuple(generics), args)
 
     @staticmethod
